@@ -7,6 +7,7 @@ CONSTANTS
   Chunk = 4194304
   BodySizes = {}
   RootSizes = {}
+  ScrubLen = 64
   MaxCommits = 100000000
   MaxAppends = 100000000
   MaxCrashes = 0
